@@ -179,7 +179,53 @@ func c16Structure(c *Ctx) {
 	}
 
 	// ---- R4: ModHex ----
-	if mh := w.Func(attestPkg, "ModHex"); mh != nil {
+	if top := w.Func(attestPkg, "ModHex"); top != nil {
+		c.Saw(top)
+		// the encoding may sit in a helper whose result ModHex returns: the rules about the loop are read there, the
+		// serial is what ModHex hands to it
+		mh := top
+		var encSite *ssa.Call
+		hasAlphabet := func(g *ssa.Function) bool {
+			for _, b := range g.Blocks {
+				for _, ins := range b.Instrs {
+					if ix, ok := ins.(*ssa.Index); ok {
+						if sc, isS := strConst(ix.X); isS && len(sc) == 16 {
+							return true
+						}
+					}
+				}
+			}
+			return false
+		}
+		if !hasAlphabet(top) {
+			for _, call := range callsIn(top) {
+				cv, ok := call.(*ssa.Call)
+				if !ok {
+					continue
+				}
+				if g := w.helperOf(cv); g != nil && w.transparent(g) && hasAlphabet(g) && len(w.callSites(g)) == 1 {
+					// its results are ModHex's
+					handed := true
+					for _, r := range liveReturns(top) {
+						if !ReachableAvoiding(cv, nil)(r) {
+							continue
+						}
+						for k, res := range r.Results {
+							want := ssa.Value(cv)
+							if g.Signature.Results().Len() > 1 {
+								want = extractOf(cv, k)
+							}
+							if throughCell(strip(res)) != want {
+								handed = false
+							}
+						}
+					}
+					if handed {
+						mh, encSite = g, cv
+					}
+				}
+			}
+		}
 		c.Saw(mh)
 		f := w.Facts(mh)
 		// dst: make([]byte, N)
@@ -408,7 +454,12 @@ func c16Structure(c *Ctx) {
 				// produced by a helper: every value it may yield is nil or ext.Value[2:]
 				nSl := 0
 				okSerial = true
-				for _, lf := range w.Leaves(serial, mh.Blocks[0].Instrs[0]) {
+				serialTop, atTop := serial, mh.Blocks[0].Instrs[0]
+				if encSite != nil {
+					serialTop, atTop = w.canon(top, serial), ssa.Instruction(encSite)
+					w.Focus(top)
+				}
+				for _, lf := range w.Leaves(serialTop, atTop) {
 					if isNilConst(strip(lf.Val)) {
 						continue
 					}
@@ -432,6 +483,9 @@ func c16Structure(c *Ctx) {
 					okDom = sp.Block().Dominates(r.Block())
 				}
 				isNil, known := f.KnownNil(r.Block(), serial)
+				if !known && encSite != nil {
+					isNil, known = w.Facts(top).KnownNil(encSite.Block(), w.canon(top, serial))
+				}
 				c.Check(okDom && known && !isNil, "R4.modhex", "ModHex|success only for an admitted length of a present extension", w.Pos(r.Pos()), "dominated by the admitted arms; must-fact serial != nil", "ModHex can succeed for a missing extension or a length outside {3,4}")
 			}
 		}
@@ -497,6 +551,44 @@ func c16Structure(c *Ctx) {
 				c.Check(ws, "R5.pem", "ParsePEMCertificates|end of bundle only on white space", w.Pos(r.Pos()), "must-fact len(TrimSpace(data)) == 0", "trailing garbage after the last certificate is accepted")
 			} else {
 				c.Ok("R5.pem", "ParsePEMCertificates|garbage is an error", w.Pos(r.Pos()), "non-nil error")
+			}
+		}
+		// the same obligation read at the successful returns, however the loop is left: what remains of the input is
+		// empty or white space (the remainder being the value the decoder is fed with)
+		if nNil == 0 {
+			dataV := dec.Call.Args[0]
+			isData := func(v ssa.Value) bool {
+				v = throughCell(strip(v))
+				return v == throughCell(strip(dataV)) || w.Expr(v) == w.Expr(dataV)
+			}
+			for _, r := range w.MayBeNilReturns(pp) {
+				if pp.Recover != nil && r.Block() == pp.Recover {
+					continue
+				}
+				nNil++
+				okEnd := f.Any(r.Block(), func(l Lit) bool {
+					bin, ok := l.V.(*ssa.BinOp)
+					if !ok {
+						return false
+					}
+					la := lenArg(bin.X)
+					k, isK := intConst(bin.Y)
+					if la == nil || !isK || k != 0 {
+						return false
+					}
+					zero := (bin.Op == token.EQL && l.Pol) || (bin.Op == token.NEQ && !l.Pol) || (bin.Op == token.GTR && !l.Pol)
+					if !zero {
+						return false
+					}
+					if isData(la) {
+						return true // nothing left
+					}
+					if tc, isCall := throughCell(strip(la)).(*ssa.Call); isCall && calleeName(tc) == "bytes.TrimSpace" && len(tc.Call.Args) == 1 {
+						return isData(tc.Call.Args[0])
+					}
+					return false
+				})
+				c.Check(okEnd, "R5.pem", "ParsePEMCertificates|end of bundle only on white space", w.Pos(r.Pos()), "must-fact: the remaining input is empty or white space", "trailing garbage after the last certificate is accepted")
 			}
 		}
 		c.Floor("R5.pem", nNil, 1, "returns on a nil PEM block")
